@@ -47,7 +47,7 @@ CATALOGUE = [
     ("slice-clip-left", ["C06"], [(DG, "H.add_interaction(u, v, f_from, b + 1)", "H.add_interaction(u, v, a if b - a > 3 else f_from, b + 1)", None)]),
     ("slice-attrs-skip", ["C06"], [(DDG, "        for n in H.nodes():\n            H._node[n] = self._node[n]", "        for n in H.nodes():\n            if len(H._node) < 4:\n                H._node[n] = self._node[n]", None)]),
     ("slice-window-check", ["C06"], [(DG, "            if t_to < t_from:\n                raise ValueError(\"Invalid range: t_to must be grater that t_from\")", "            if t_to < t_from - 1:\n                raise ValueError(\"Invalid range: t_to must be grater that t_from\")", None)]),
-    ("reject-after-node", ["C07"], [(DG, "        if self.has_edge(u, v) and t[0] < self._adj[u][v]['t'][-1][0]:\n            raise ValueError", "        if e is not None and self.edge_removal and self.has_edge(u, v) and t[0] < self._adj[u][v]['t'][-1][0]:\n            self.time_to_edge.setdefault(e, {})\n        if self.has_edge(u, v) and t[0] < self._adj[u][v]['t'][-1][0]:\n            raise ValueError", None)]),
+    ("reject-after-node", ["C07"], [(DG, "        if self.has_edge(u, v) and t[0] < self._adj[u][v]['t'][-1][0]:\n            raise ValueError", "        if e is not None and self.edge_removal and self.has_edge(u, v) and t[0] < self._adj[u][v]['t'][-1][0]:\n            self.snapshots.setdefault(e, 0)\n        if self.has_edge(u, v) and t[0] < self._adj[u][v]['t'][-1][0]:\n            raise ValueError", None)]),
     ("bulk-none-late", ["C07"], [(DDG, "        if t is None:\n            raise nx.NetworkXError(\n                \"The t argument must be a specified.\")\n        # process ebunch\n        for ed in ebunch:", "        # process ebunch\n        for ed in ebunch:\n            if t is None:\n                self.add_node(ed[0])", None)]),
     ("accum-presence-lt", ["C08"], [(DG, "            if spans[0][0] <= t <= max(self.temporal_snapshots_ids()):", "            if spans[0][0] <= t < max(self.temporal_snapshots_ids()) or t == spans[0][0]:", None)]),
     ("accum-plus-again", ["C08"], [(DDG, "            if self.has_edge(u, v) and not self.edge_removal:\n                continue", "            if self.has_edge(u, v) and not self.edge_removal and idt <= self._succ[u][v]['t'][-1][1] + 3:\n                continue", None)]),
@@ -79,7 +79,7 @@ CATALOGUE = [
     ("typeerror-swallow", ["C18"], [(EL, "            except:\n                raise TypeError(\"Failed to convert timestamp %s to type %s.\" % (s, nodetype))", "            except:\n                continue", None)]),
     ("unblock-add_weighted", ["C19"], [(DG, "    @not_implemented()\n    def add_edges_from(self, ebunch, attr_dict=None, **attr):\n        pass", "    def add_edges_from(self, ebunch, attr_dict=None, **attr):\n        ebunch = list(ebunch)\n        if not all(len(x) == 3 and isinstance(x[2], dict) and 'weight' in x[2] for x in ebunch):\n            raise nx.NetworkXNotImplemented('Method not implemented for dynamic graphs')\n        nx.Graph.add_edges_from(self, ebunch, **attr)", None)]),
     ("clear-keeps-snapshots", ["C19"], [(DDG, "        nx.DiGraph.clear_edges(self)\n        self.time_to_edge = defaultdict(int)\n        self.snapshots = {}", "        nx.DiGraph.clear_edges(self)\n        self.time_to_edge = defaultdict(int)", None)]),
-    ("freeze-misses-remove", ["C19"], [(FN, "    G.remove_nodes_from = frozen\n", "", None)]),
+    ("freeze-misses-add_nodes", ["C19"], [(FN, "    G.add_nodes_from = frozen\n", "", None)]),
     ("conformity-normalise", ["C20"], [(AS, "        norm = sum([(d ** -alpha) for d in range(1, max_dist + 1)])", "        norm = sum([(d ** -alpha) for d in range(1, max_dist + (1 if max_dist < 3 else 0))])", None)]),
     ("sliding-lt", ["C20"], [(AS, "        if t + delta < tids[-1]:", "        if t + delta <= tids[-1]:", None)]),
     ("conformity-nodes-start", ["C20"], [(AS, "{n: 0 for n in g.nodes(t=start)}", "{n: 0 for n in (g.nodes(t=start) if delta < 4 else g.nodes())}", None)]),
